@@ -56,7 +56,9 @@ func runC08(r resIface, c *c08case, cfg *e2eCfg, rng *prng.R) {
 	}
 	var e *e2eRun
 	var err error
-	if slowFull != nil {
+	if c.Traffic == "backlog-behind-rdb" {
+		e, err = startE2E(cfg, sc, nil, false, func(x *e2eRun) { x.Src.Feed(stream) })
+	} else if slowFull != nil {
 		e, err = startE2E(cfg, sc, nil, false, slowFull)
 	} else {
 		e, err = startE2E(cfg, sc, nil, false)
@@ -114,6 +116,7 @@ func runC08(r resIface, c *c08case, cfg *e2eCfg, rng *prng.R) {
 			e.Src.Feed(stream[:len(stream)/2]) // arrives while the RDB is still being restored
 			time.Sleep(1500 * time.Millisecond)
 			e.Src.Feed(stream[len(stream)/2:])
+		case "backlog-behind-rdb": // already handed to the master before the tool connected
 		default: // "early-burst": everything at once, then idle
 			e.Src.Feed(stream)
 		}
@@ -313,6 +316,11 @@ func c08histChild(raw json.RawMessage, scratch string) {
 		rng := base.At(uint64(i))
 		c := &c08case{Index: i, Resume: ex.Resume, StartOffset: []int64{0, 1, 1<<31 - 5, 1 << 40, 1<<32 - 300}[i%5], Traffic: []string{"early-burst", "burst-idle-burst", "trickle", "during-full-sync"}[i/4%4],
 			Drop: []string{"none", "boundary", "mid", "after-boundary", "twice", "idle"}[i%6], Commands: rng.Pick(40, 120)}
+		if c.Traffic == "early-burst" && i%2 == 0 {
+			// a backlog of tens of kilobytes that the master writes right behind the RDB (it accumulated while the RDB was
+			// being produced): it reaches the tool together with the RDB, before the stream copy has even started
+			c.Traffic, c.Commands = "backlog-behind-rdb", 1500
+		}
 		mu.Lock()
 		wk.ChildCase(i, c)
 		mu.Unlock()
@@ -332,7 +340,7 @@ func c08histChild(raw json.RawMessage, scratch string) {
 
 func c08(c *wk.Ctx) {
 	r := c.R
-	r.Rule = "fault enumeration over link-drop positions x traffic histories over wall-clock time: end-to-end DbSyncer.Sync() runs against a scripted master that records every REPLCONF ACK and PSYNC together with the number of stream bytes it had written by then; start offsets {0, 1, 2^31-5, 2^40}; traffic plans (early burst then idle, burst-idle-burst, steady trickle across many ack ticks, stream arriving while a slowed-down full phase is still restoring the RDB); drop plans (none, at a command boundary, inside a command, one byte after a boundary, twice, while idle). ACK <= start+written, never decreasing, == start+total after 2.7 s of silence; reconnect PSYNC <announced id> <start+received+1>; final target == source history (INCR/APPEND/RPUSH make a lost or repeated byte visible); with resume on every stored checkpoint offset is the end of a forwarded command. distinct = (traffic plan, drop plan, start offset, resume)"
+	r.Rule = "fault enumeration over link-drop positions x traffic histories over wall-clock time: end-to-end DbSyncer.Sync() runs against a scripted master that records every REPLCONF ACK and PSYNC together with the number of stream bytes it had written by then; start offsets {0, 1, 2^31-5, 2^40}; traffic plans (early burst then idle, a 60 KB backlog written right behind the RDB, burst-idle-burst, steady trickle across many ack ticks, stream arriving while a slowed-down full phase is still restoring the RDB); drop plans (none, at a command boundary, inside a command, one byte after a boundary, twice, while idle). ACK <= start+written, never decreasing, == start+total after 2.7 s of silence; reconnect PSYNC <announced id> <start+received+1>; final target == source history (INCR/APPEND/RPUSH make a lost or repeated byte visible); with resume on every stored checkpoint offset is the end of a forwarded command. distinct = (traffic plan, drop plan, start offset, resume)"
 	onDeath := func(d wk.Death) {
 		if d.Result.TimedOut {
 			r.Inconcl("C08 child watchdog: " + wk.Tail(d.Result.Stderr, 300))
